@@ -4,6 +4,7 @@ import Falcon.Lemmas.TowerAlg
 import Falcon.Lemmas.Karatsuba
 import Falcon.Lemmas.KeygenSound
 import Falcon.Model.KeygenSkel
+import Falcon.Lemmas.PublicKey
 
 /-!
 # C04 — generated key pairs are valid NTRU trapdoors (algebraic core)
@@ -188,6 +189,33 @@ theorem public_key_relation (d : Nat) (hd : d ≤ 10) (h f g : List Nat)
   have h1 := C11.ntt_mul_exact d hd h f hlh hlf
   rw [hrel, C11.intt_ntt d hd g hlg hcg] at h1
   exact (Res.ok.inj h1).symm
+
+/-- the forward transform undoes the inverse transform (the direction C11 does not state): for every n = 2^d ≤ 1024
+    and every canonical v of length n, `ifft` does not panic and `fft(ifft(v)) = v` — with C11's `intt_ntt` the two
+    transforms are mutually inverse bijections, which is what makes division in the transform domain meaningful -/
+theorem forward_transform_undoes_inverse (d : Nat) (hd : d ≤ 10) (v : List Nat) (hl : v.length = 2 ^ d)
+    (hc : ∀ x ∈ v, x < 12289) :
+    ∃ a, intt d v = .ok a ∧ ntt d a = v ∧ a.length = 2 ^ d ∧ ∀ x ∈ a, x < 12289 :=
+  Ntt.ntt_intt_q d hd v hl hc
+
+/-- **the public key the code derives is g·f⁻¹**: `h = intt(ntt g ⊙ batch_inverse_or_zero(ntt f))` — for every
+    n = 2^d ≤ 1024, every canonical f whose transform has no zero slot (the invertibility guard of `ntru_gen`) and every
+    g, in both build modes, the derivation does not panic and returns a canonical h of length n with
+    h ⋆ f = g in Z_q[X]/(Xⁿ+1).  (Uses `ntt_intt_q`: the forward transform undoes the inverse transform.) -/
+theorem public_key_is_g_over_f (chk : Bool) (d : Nat) (hd : d ≤ 10) (f g : List Nat)
+    (lf : f.length = 2 ^ d) (lg : g.length = 2 ^ d) (cf : ∀ x ∈ f, x < 12289) (cg : ∀ x ∈ g, x < 12289)
+    (hinv : ∀ x ∈ ntt d f, x ≠ 0) :
+    ∃ finv h, Zq.batchInv chk (ntt d f) = .ok finv ∧ intt d (hadamard (ntt d g) finv) = .ok h ∧
+      h.length = 2 ^ d ∧ (∀ x ∈ h, x < 12289) ∧ negacyc (2 ^ d) h f = g :=
+  Ntt.public_key_is_g_over_f chk d hd f g lf lg cf cg hinv
+
+/-- non-vacuity (n = 2): f = 1 + X has no zero slot, g = 3 + 2X; the derived h satisfies h ⋆ f = g -/
+example : (ntt 1 [1, 1]).all (· != 0) = true ∧
+    (match Zq.batchInv true (ntt 1 [1, 1]) with
+     | .ok finv => (match intt 1 (hadamard (ntt 1 [3, 2]) finv) with
+        | .ok h => negacyc 2 h [1, 1] == [3, 2]
+        | _ => false)
+     | _ => false) = true := by decide
 
 /-- the acceptance bound on the Gram-Schmidt norm is the specification's (1.17²·q: the literal 1.3689), the
     invertibility guard tests every NTT coefficient of f, and the range guards are the reference's -/
